@@ -981,7 +981,46 @@ def main():
                                 em.violation("C04: reader over a socket: %s" % r[1], {"recv_events": [x.hex() for x in segs] + [""], "chunked": chunked, "cfg": [1, q, 1, True]}, {})
                             if r[0] == "R" and q != 2:
                                 em.violation("C04: read() over a socket raised in mode %d" % q, {"recv_events": [x.hex() for x in segs] + [""], "chunked": chunked}, {})
-        em.samples = [{"streams": "hostile item mixes, sync-dense noise, random bytes, embedded short-payload frames; three modes; with and without faults; plain and chunked sockets cut anywhere"}]
+        # hostile CHUNKED wire (direct only; the constructor already receives): arbitrary bytes where a chunked body is expected, and
+        # crafted chunk-size lines -- enormous (2**63, 2**64, 80 bits), signed, prefixed, blank, underscored, with extensions, non-hex
+        def sock_all(segs, q):
+            sk = FakeSocket(list(segs) + [b""])
+            try:
+                with vlib.watchdog(8):
+                    n = 0
+                    for _ in p.RTCMReader(sk, quitonerror=q, encoding=1):
+                        n += 1
+                        if n > 20000:
+                            return "iteration does not finish"
+                return None
+            except vlib.WatchdogTimeout:
+                return "did not finish within 8 s"
+            except Exception as e:  # noqa
+                return None if (vlib.exc_tag(e) != 5 and q == 2) else repr(e)
+            finally:
+                sk.close()
+        good = gen.frame(valid_payloads(tabs, rng, 1)[0])
+        okchunk = b"%x\r\n" % len(good) + good + b"\r\n"
+        sizes = [b"8000000000000000", b"7fffffffffffffff", b"10000000000000000", b"ffffffffffffffffffff", b"-5", b"+5", b"0x5", b" 5 ", b"1_0", b"",
+                 b"zz", b"5;ext=1", b"00000000000000000005", b"\xff\xfe", b"5\x00"]
+        wires = [okchunk + sz + b"\r\n" + good[:5] + b"\r\n" + okchunk + b"0\r\n\r\n" for sz in sizes]
+        wires += [sz + b"\r\n" + good for sz in sizes[:4]]
+        wires += [bytes(rng.getrandbits(8) for _ in range(rng.randrange(1, 200))) for _ in range(20 if thorough else 8)]
+        wires += [b"".join(rng.choice([b"\r\n", b"5", b"a", b"F", b"0", b"\n", b"\r", good[:7], b"-", b" "]) for _ in range(rng.randrange(1, 40))) for _ in range(40 if thorough else 15)]
+        for w in wires:
+            n_ = len(w)
+            for rep in range(2):
+                cuts = sorted(rng.sample(range(1, n_), min(n_ - 1, rep * 3))) if n_ > 1 else []
+                segs = [w[a_:b_] for a_, b_ in zip([0] + cuts, cuts + [n_])]
+                for q in (0, 1, 2):
+                    em.direct_evaluations += 1
+                    bad_ = sock_all(segs, q)
+                    if bad_:
+                        em.violation("C04: reader over a chunked socket fed hostile bytes: %s (mode %d)" % (bad_[:160], q),
+                                     {"recv_events": [x.hex() for x in segs] + [""], "chunked": True, "cfg": [1, q, 1, True]}, {})
+                        break
+        em.count("hostile.chunked", len(wires))
+        em.samples = [{"streams": "hostile item mixes, sync-dense noise, random bytes, embedded short-payload frames; three modes; with and without faults; plain and chunked sockets cut anywhere; hostile chunked wire incl. enormous / signed / malformed size lines"}]
 
     elif prop == "C11":
         for it in range(60 if thorough else 18):
